@@ -797,7 +797,7 @@ def logunit_case(ctx, g, rng):
     cols = dict(P=10 ** rng.uniform(0, 3, n) * u.day, e=rng.uniform(0, 0.9, n) * u.one, omega=rng.uniform(0, 6, n) * u.rad,
                 M0=rng.uniform(0, 6, n) * u.rad, s=10 ** rng.uniform(-2, 1, n) * u.km / u.s, K=10 ** rng.uniform(-1, 2, n) * u.km / u.s,
                 v0=rng.normal(0, 10, n) * u.km / u.s)
-    which = str(rng.choice(["P", "P", "K", "s"]))
+    which = ["P", "P", "K", "s"][g["index"] % 4]     # by case index: coverage must not be luck
     logu = {"P": u.dex(u.day), "K": u.dex(u.km / u.s), "s": u.mag(u.km / u.s)}[which]
 
     def build(log):
